@@ -30,8 +30,27 @@ type Collector struct {
 	MaxSamples int `json:"-"`
 }
 
+var (
+	allMu sync.Mutex
+	all   []*Collector
+)
+
 func New(prop, test string) *Collector {
-	return &Collector{Prop: prop, Test: test, Labels: map[string]int{}, Excluded: map[string]int{}, Known: map[string]int{}, seen: map[string]bool{}, MaxSamples: 4, Extra: map[string]any{}}
+	c := &Collector{Prop: prop, Test: test, Labels: map[string]int{}, Excluded: map[string]int{}, Known: map[string]int{}, seen: map[string]bool{}, MaxSamples: 4, Extra: map[string]any{}}
+	allMu.Lock()
+	all = append(all, c)
+	allMu.Unlock()
+	return c
+}
+
+// FlushAll writes every collector of this process (used when the process gives up early).
+func FlushAll() {
+	allMu.Lock()
+	l := append([]*Collector(nil), all...)
+	allMu.Unlock()
+	for _, c := range l {
+		c.Flush()
+	}
 }
 
 // Case records one executed case. fingerprint is any canonical serialisation of the case.
